@@ -134,6 +134,8 @@ CONFIGS = [
     ("-X dev", {"pyflags": ["-X", "dev"]}),
     # a trace function is installed for the whole shard (debugger, coverage, profiler): sys.gettrace() is not None
     ("tracer-active", {"env": {"VMON_AMBIENT": "tracer"}}),
+    # `python -bb`: comparing bytes with str is an error (BytesWarning raised) instead of silently False
+    ("-bb", {"pyflags": ["-bb"]}),
 ]
 NOT_A_SWITCH = ("VMON_", "PYTHON", "PATH", "HOME", "LANG", "LC_", "TMP", "TEMP", "USER", "PWD", "SHELL", "TERM", "CHARTPARSE_VERIF")
 
